@@ -120,6 +120,15 @@ theorem KK.log {act : Option EvId} {s : KS} {κ : Kern} (h : KK act s κ) (p : E
   rw [txsOf_push, txOf1_tx, h.tx, h.now]
   rfl
 
+/-- an observation that is not a transmission -/
+theorem KK.emit {act : Option EvId} {s : KS} {κ : Kern} (h : KK act s κ) (o : Obs ℚ) (ho : txOf1 o = none) :
+    KK act (s.emit o) κ := by
+  refine ⟨h.act, h.now, ⟨h.wf.due, h.wf.eid_lt, h.wf.distinct⟩, h.ag, h.rsz, h.tok, h.run, h.scr, h.pend, h.pnd, h.tm, h.pt0, h.pt2,
+    h.ptm, h.knd, ?_, h.cur⟩
+  show txsOf (s.trace.push _) = κ.txs
+  rw [txsOf_push, ho, h.tx]
+  simp
+
 /-- `env.process(Timer.run)`: the state after the call -/
 def spawnSt (s : KS) (st : St) : KS :=
   { s with
